@@ -154,7 +154,7 @@ def _order_facet(P, idx, normal):
     return [idx[i] for i in np.argsort(ang)]
 
 
-def hull_facets(P, band=1e-9, brute_max=36):
+def hull_facets(P, band=1e-9, brute_max=36, check=True):
     """Facets of the convex hull of P, coplanar facets whole.
 
     Every vertex triple whose plane has all other points on one side (within
@@ -201,7 +201,7 @@ def hull_facets(P, band=1e-9, brute_max=36):
         nl.append(nn)
         ol.append(float(np.mean(pts @ nn)))
     h = Hull(P, fl, np.array(nl), np.array(ol))
-    if not h.closed() or len(h.on_hull) - len(h.edge_faces) + len(fl) != 2:
+    if check and (not h.closed() or len(h.on_hull) - len(h.edge_faces) + len(fl) != 2):
         raise DegenerateInput("facets of the supporting planes do not form a closed surface (near-coplanar or near-duplicate points)")
     return h
 
@@ -209,7 +209,7 @@ def hull_facets(P, band=1e-9, brute_max=36):
 def in_convex_position(P, margin):
     """True iff every point is farther than ``margin`` from the hull of the others
     (checked through the facets of the full hull: a non-vertex lies on or below a facet)."""
-    h = hull_facets(P)
+    h = hull_facets(P, check=False)
     if len(h.on_hull) != len(P):
         return False
     # each vertex must stick out: distance from vertex to hull of others > margin
